@@ -31,7 +31,15 @@ def impl_walks(st, layers):
     m = object.__new__(Stub)
     m.G = st; m.k = len(layers)
     m.edge_vars_sol = {(str(u), str(v), i): val for i, L in enumerate(layers) for (u, v), val in L.items()}
-    return m.get_solution_walks()
+    first = m.get_solution_walks()
+    # the reconstruction is asked a second (and third) time on the same object -- as the library itself does for node-weighted
+    # input: the answer must not depend on having been asked before
+    first = [list(w) for w in first]
+    for _ in range(2):
+        again = [list(w) for w in m.get_solution_walks()]
+        if again != first:
+            raise AssertionError(f"get_solution_walks() returns {again} when asked again; the first answer was {first}")
+    return first
 
 
 def request(st, ids, layer):
